@@ -57,7 +57,10 @@ def build(names):
             print(name, status[name], flush=True)
     finally:
         drop(wt)
-    json.dump(status, open(os.path.join(MD, "STATUS.json"), "w"), indent=1)
+    sp = os.path.join(MD, "STATUS.json")
+    old = json.load(open(sp)) if os.path.exists(sp) else {}
+    old.update(status)
+    json.dump(old, open(sp, "w"), indent=1, sort_keys=True)
 
 
 def run(names):
